@@ -49,7 +49,7 @@ class _Outputter(object):
         with file:
             try:
                 return json.load(file)
-            except JSONDecodeError:
+            except (JSONDecodeError, UnicodeDecodeError):
                 self.parsing_error(path=path, exc_info=sys.exc_info())
                 raise _CannotLoadFile()
 
@@ -253,7 +253,7 @@ def run(arguments, stdout=sys.stdout, stderr=sys.stderr, stdin=sys.stdin):
         def load(_):
             try:
                 return json.load(stdin)
-            except JSONDecodeError:
+            except (JSONDecodeError, UnicodeDecodeError):
                 outputter.parsing_error(
                     path="<stdin>", exc_info=sys.exc_info(),
                 )
